@@ -126,6 +126,7 @@ type World struct {
 	hdr    tmproto.Header
 	ValKey cryptotypes.PrivKey
 	qctx   *sdk.Context // cached context on the last committed state
+	base   *BaseSnap
 }
 
 func appOptions(skipInv bool) simtestutil.AppOptionsMap {
@@ -605,8 +606,29 @@ func cp(b []byte) []byte {
 	return o
 }
 
+// BaseSnap is an immutable full copy of a database; snapshots are stored as differences to it
+// (an IAVL-backed database only ever adds nodes, so the difference is what the blocks since the
+// base have written).
+type BaseSnap struct {
+	m map[string][]byte
+}
+
+func (w *World) MakeBase() *BaseSnap {
+	b := &BaseSnap{m: map[string][]byte{}}
+	for _, kv := range DumpDB(w.DB) {
+		b.m[string(kv.K)] = kv.V
+	}
+	return b
+}
+
+// SetBase makes later snapshots of this world relative to b.
+func (w *World) SetBase(b *BaseSnap) { w.base = b }
+
 type Snap struct {
-	KVs     []KV
+	base    *BaseSnap
+	blob    []byte   // length-prefixed key/value pairs that differ from base
+	tomb    [][]byte // keys of base that are absent
+	N       int
 	Height  int64
 	Time    time.Time
 	AppHash []byte
@@ -625,30 +647,121 @@ func DumpDB(db dbm.DB) []KV {
 	return out
 }
 
+func putLen(b []byte, n int) []byte {
+	return append(b, byte(n>>24), byte(n>>16), byte(n>>8), byte(n))
+}
+
 func (w *World) Snapshot() *Snap {
 	if w.inBlk {
 		panic("harness: snapshot inside a block")
 	}
-	return &Snap{KVs: DumpDB(w.DB), Height: w.Height, Time: w.Time, AppHash: w.App.LastCommitID().Hash}
-}
-
-// Restore replaces the database contents in place and reloads the multistore.
-func (w *World) Restore(s *Snap) {
 	it, err := w.DB.Iterator(nil, nil)
 	if err != nil {
 		panic(err)
 	}
-	var keys [][]byte
+	defer it.Close()
+	s := &Snap{base: w.base, Height: w.Height, Time: w.Time, AppHash: w.App.LastCommitID().Hash}
+	blob := make([]byte, 0, 64<<10)
+	matched := 0
 	for ; it.Valid(); it.Next() {
-		keys = append(keys, append([]byte(nil), it.Key()...))
+		k, v := it.Key(), it.Value()
+		s.N++
+		if w.base != nil {
+			if bv, ok := w.base.m[string(k)]; ok {
+				matched++
+				if bytes.Equal(bv, v) {
+					continue
+				}
+			}
+		}
+		blob = putLen(blob, len(k))
+		blob = append(blob, k...)
+		blob = putLen(blob, len(v))
+		blob = append(blob, v...)
+	}
+	s.blob = append([]byte(nil), blob...)
+	if w.base != nil && matched < len(w.base.m) {
+		for k := range w.base.m {
+			if ok, _ := w.DB.Has([]byte(k)); !ok {
+				s.tomb = append(s.tomb, []byte(k))
+			}
+		}
+	}
+	return s
+}
+
+// each calls f for every key/value pair of the difference blob (slices alias the snapshot).
+func (s *Snap) each(f func(k, v []byte)) {
+	b := s.blob
+	for len(b) > 0 {
+		n := int(b[0])<<24 | int(b[1])<<16 | int(b[2])<<8 | int(b[3])
+		k := b[4 : 4+n]
+		b = b[4+n:]
+		n = int(b[0])<<24 | int(b[1])<<16 | int(b[2])<<8 | int(b[3])
+		v := b[4 : 4+n]
+		b = b[4+n:]
+		f(k, v)
+	}
+}
+
+// Restore makes the database contents equal to the snapshot, in place, and reloads the multistore.
+func (w *World) Restore(s *Snap) {
+	diff := map[string][]byte{}
+	s.each(func(k, v []byte) { diff[string(k)] = v })
+	tomb := map[string]bool{}
+	for _, k := range s.tomb {
+		tomb[string(k)] = true
+	}
+	want := func(k string) ([]byte, bool) {
+		if v, ok := diff[k]; ok {
+			return v, true
+		}
+		if s.base != nil && !tomb[k] {
+			v, ok := s.base.m[k]
+			return v, ok
+		}
+		return nil, false
+	}
+	it, err := w.DB.Iterator(nil, nil)
+	if err != nil {
+		panic(err)
+	}
+	have := map[string]bool{}
+	var del [][]byte
+	var set []KV
+	for ; it.Valid(); it.Next() {
+		k := string(it.Key())
+		v, ok := want(k)
+		if !ok {
+			del = append(del, cp(it.Key()))
+			continue
+		}
+		have[k] = true
+		if !bytes.Equal(v, it.Value()) {
+			set = append(set, KV{[]byte(k), cp(v)})
+		}
 	}
 	it.Close()
-	for _, k := range keys {
+	for _, k := range del {
 		if err := w.DB.Delete(k); err != nil {
 			panic(err)
 		}
 	}
-	for _, kv := range s.KVs {
+	for k, v := range diff {
+		if !have[k] {
+			set = append(set, KV{[]byte(k), cp(v)})
+		}
+	}
+	if s.base != nil {
+		for k, v := range s.base.m {
+			if !have[k] && !tomb[k] {
+				if _, inDiff := diff[k]; !inDiff {
+					set = append(set, KV{[]byte(k), cp(v)})
+				}
+			}
+		}
+	}
+	for _, kv := range set {
 		if err := w.DB.Set(kv.K, kv.V); err != nil {
 			panic(err)
 		}
